@@ -470,6 +470,94 @@ def run_c15(tier, seed, t0, replay_item=None):
     return finish(rep, t0)
 
 
+# ----------------------------------------------------------------------------- C14 open file
+
+def run_c14(tier, seed, t0, replay_item=None):
+    prop = "C14"
+    rep = Report(prop, tier, seed, "model_checking")
+    runner = core.build_runner()
+    core.ensure_keys(runner)
+    mc = {"distinct": 0, "generated": 0}
+    gen = 0
+    ref_items = []
+    if replay_item is not None:
+        items = [replay_item]
+    else:
+        mc = core.model_check("MC_File.tla", "MC_File.cfg", timeout=1200)
+        log("[C14] TLC exhaustive on File.tla: %d distinct / %d generated states" % (mc["distinct"], mc["generated"]))
+        n = 260 if tier == "quick" else 6000
+        cfgtxt = open(os.path.join(core.SPEC, "Gen_File.cfg")).read()
+        behs = []
+        for depth, share in ((14, 0.7), (30, 0.3)):
+            name = "Gen_File_%d.cfg" % depth
+            bs, st = core.simulate("Gen_File.tla", name, int(n * share), depth + 4, seed * 13 + depth, workers=8, timeout=1500,
+                                   files={name: cfgtxt.replace("GDepth = 14", "GDepth = %d" % depth)})
+            gen += st["generated"]
+            behs += bs
+        rng = random.Random(seed)
+        items = []
+        for i, b in enumerate(behs):
+            cfg = conc.config(rng, plain_bias=0.65, allow_pgp=(tier == "thorough" and i % 6 == 0))
+            unit = rng.choice([1, 1, 3, 512, cfg["rs"] * 512 + 1]) if cfg["rs"] <= 7 else rng.choice([1, 1, 3, 512])
+            if tier == "quick" and unit > 512:
+                unit = 512
+            it = {"id": "C14-%d-%d" % (seed, i), "cfg": cfg, "unit": unit, "flags": b["flags"], "stored": b["stored"],
+                  "final": b["final"], "steps": b["steps"]}
+            items.append(it)
+            if i % 8 == 0:
+                r = dict(it)
+                r["id"] = "ref-" + it["id"]
+                r["osfs"] = True
+                ref_items.append(r)
+    res, crashed = core.run_batches(runner, "file", items + ref_items, per_batch=12, timeout=2400)
+    by_id = {it["id"]: it for it in items + ref_items}
+    ops, infra, done, checks_n, shapes = {}, [], 0, 0, set()
+    # the reference itself must agree with os.File (afero OsFs); a mismatch is a bug of the specification
+    for it in ref_items:
+        r = res.get(it["id"])
+        if r and r.get("findings"):
+            raise Infra("File.tla disagrees with os.File on %s: %s" % (it["id"], r["findings"][0]["msg"]))
+    for bid, why in crashed.items():
+        if bid.startswith("ref-"):
+            raise Infra("reference run crashed: " + why[-500:])
+        rep.violation("process died during handle calls of %s: %s" % (bid, why[-1500:]), {"kind": "file", "prop": prop, "item": by_id[bid]})
+    for bid, r in res.items():
+        if bid.startswith("ref-"):
+            continue
+        if r.get("infra"):
+            infra.append("%s: %s" % (bid, r["infra"]))
+            continue
+        done += 1
+        checks_n += r.get("checks", 0)
+        for k, v in (r.get("ops") or {}).items():
+            ops[k] = ops.get(k, 0) + v
+        it = by_id[bid]
+        shapes.add(json.dumps([it["flags"], [s["op"] for s in it["steps"]]], sort_keys=True))
+        unknown = []
+        for f in r.get("findings", []):
+            k = match_known(prop, f, it)
+            if k:
+                rep.known[k["id"]] = "%s (%s)" % (k["what"], k["id"])
+            else:
+                unknown.append(f)
+        if unknown:
+            f = unknown[0]
+            rep.violation("%s step %d %s: %s" % (bid, f["step"], f.get("call", ""), f["msg"]) + ("\n" + r["dump"][:2000] if r.get("dump") else ""),
+                          {"kind": "file", "prop": prop, "item": it, "findings": unknown[:10]})
+    if infra and len(infra) > len(items) // 2 and not rep.violations:
+        raise Infra("; ".join(infra[:4]))
+    s0 = items[0] if items else {}
+    rep.coverage = {"states": max(1, mc["distinct"]), "transitions": max(1, mc["generated"] + gen), "traces_validated_against_impl": done,
+                    "samples": [{"flags": s0.get("flags"), "stored": s0.get("stored"), "unit": s0.get("unit"), "cfg": s0.get("cfg"),
+                                 "steps": [(s["op"], s["a"], s["b"], s["res"], s["cnt"]) for s in s0.get("steps", [])][:14]}],
+                    "evaluations": checks_n, "distinct_nontrivial": len(shapes),
+                    "rule": "random walks of spec/File.tla (14 and 30 handle calls, 7 flag sets, offsets -2..8, buffer sizes 1..9) replayed on real handles with offsets scaled by a unit in {1,3,512,rs*512+1}, both write caches, sampled pipelines; every returned count/offset/byte/EOF compared, then Close, fresh open and Stat; distinct = distinct (flags, op sequence)",
+                    "ops": ops, "reference_validated_against_osfs": len(ref_items), "skipped": len(infra)}
+    rep.assumptions = ["File.tla is validated against os.File through afero's OsFs in the same run (a disagreement aborts with exit 2)",
+                       "WriteAt on append handles is unspecified and not generated"]
+    return finish(rep, t0)
+
+
 # ----------------------------------------------------------------------------- dispatch
 
 def run(prop, tier, seed, t0):
@@ -481,6 +569,8 @@ def run(prop, tier, seed, t0):
         return run_c16(tier, seed, t0)
     if prop == "C15":
         return run_c15(tier, seed, t0)
+    if prop == "C14":
+        return run_c14(tier, seed, t0)
     print("property %s is not claimed by this framework (see MANIFEST.json not_applicable)" % prop, file=sys.stderr)
     return 2
 
@@ -492,6 +582,8 @@ def replay(prop, path):
         it = payload["item"]
         it["oracles"] = [prop]
         return run_core(prop, "quick", 0, t0, replay_item=it)
+    if payload.get("kind") == "file":
+        return run_c14("quick", 0, t0, replay_item=payload["item"])
     if payload.get("kind") == "ro":
         return run_c15("quick", 0, t0, replay_item=payload["item"])
     if payload.get("kind") == "open":
